@@ -5,6 +5,7 @@ import (
 	"fmt"
 	"io"
 	"os"
+	"sort"
 	"os/exec"
 	"strconv"
 	"strings"
@@ -71,6 +72,11 @@ type Solver struct {
 	out     *bufio.Reader
 	lines   chan string
 	dead    bool
+
+	stack    []sframe
+	declSyms map[string]Sort
+	declUFs  map[string]bool
+	axDone   map[string]bool
 }
 
 func solverSpec(name string, timeoutMs int) ([]string, string) {
@@ -167,9 +173,99 @@ func stat(name string) *SolverStats {
 	return st
 }
 
-// Check decides the conjunction of asserts. With wantModel the values of all
-// declared symbols are returned on sat.
-func (s *Solver) Check(asserts []*Term, wantModel bool, hardTimeout time.Duration) (Result, Model, string) {
+type sframe struct {
+	key  string
+	syms []string
+	ufs  []string
+	apps []string
+}
+
+// emitTerm renders one assertion plus the declarations and ground axioms it
+// needs that are not yet in scope; what it declared is recorded in fr.
+func (s *Solver) emitTerm(sb *strings.Builder, t *Term, fr *sframe) {
+	d := NewDecls()
+	var body strings.Builder
+	var emit func(t *Term)
+	pendingApps := map[string]*Term{}
+	emit = func(t *Term) {
+		txt := t.SMT(d)
+		body.WriteString("(assert " + txt + ")\n")
+		for k, app := range d.ufApps {
+			if !s.axDone[k] {
+				pendingApps[k] = app
+			}
+		}
+	}
+	emit(t)
+	for len(pendingApps) > 0 {
+		var keys []string
+		for k := range pendingApps {
+			keys = append(keys, k)
+		}
+		sort.Strings(keys)
+		for _, k := range keys {
+			app := pendingApps[k]
+			delete(pendingApps, k)
+			if s.axDone[k] {
+				continue
+			}
+			s.axDone[k] = true
+			fr.apps = append(fr.apps, k)
+			if ax := ufAxioms[app.S]; ax != nil {
+				for _, a := range ax(app) {
+					if !a.IsTrue() {
+						emit(a)
+					}
+				}
+			}
+		}
+	}
+	for _, n := range d.SymNames() {
+		if _, ok := s.declSyms[n]; !ok {
+			s.declSyms[n] = d.syms[n]
+			fr.syms = append(fr.syms, n)
+			sb.WriteString("(declare-const " + smtSym(n) + " " + d.syms[n].String() + ")\n")
+		}
+	}
+	var ufs []string
+	for n := range d.ufs {
+		ufs = append(ufs, n)
+	}
+	sort.Strings(ufs)
+	for _, n := range ufs {
+		if !s.declUFs[n] {
+			s.declUFs[n] = true
+			fr.ufs = append(fr.ufs, n)
+			sb.WriteString(d.ufs[n] + "\n")
+		}
+	}
+	sb.WriteString(body.String())
+}
+
+func (s *Solver) undo(fr *sframe) {
+	for _, n := range fr.syms {
+		delete(s.declSyms, n)
+	}
+	for _, n := range fr.ufs {
+		delete(s.declUFs, n)
+	}
+	for _, k := range fr.apps {
+		delete(s.axDone, k)
+	}
+}
+
+func (s *Solver) resetState() {
+	s.stack = nil
+	s.declSyms = map[string]Sort{}
+	s.declUFs = map[string]bool{}
+	s.axDone = map[string]bool{}
+}
+
+// Check decides base ∧ extra. The base (a path condition) is kept asserted in
+// the live solver process, one push level per term, and only the difference
+// to the previous query is sent. With wantModel the values of all symbols in
+// scope are returned on sat.
+func (s *Solver) Check(base []*Term, extra []*Term, wantModel bool, hardTimeout time.Duration) (Result, Model, string) {
 	if s.cmd == nil || s.dead {
 		if s.cmd != nil {
 			s.Close()
@@ -177,43 +273,31 @@ func (s *Solver) Check(asserts []*Term, wantModel bool, hardTimeout time.Duratio
 		if err := s.start(); err != nil {
 			return Unknown, nil, "start: " + err.Error()
 		}
+		s.resetState()
 	}
-	d := NewDecls()
-	var body strings.Builder
-	done := map[string]bool{}
-	var emit func(t *Term)
-	emit = func(t *Term) {
-		body.WriteString("(assert " + t.SMT(d) + ")\n")
-		// ground axioms for new uf applications
-		for {
-			progress := false
-			for k, app := range d.ufApps {
-				if done[k] {
-					continue
-				}
-				done[k] = true
-				progress = true
-				if ax := ufAxioms[app.S]; ax != nil {
-					for _, a := range ax(app) {
-						if !a.IsTrue() {
-							body.WriteString("(assert " + a.SMT(d) + ")\n")
-						}
-					}
-				}
-			}
-			if !progress {
-				break
-			}
-		}
-	}
-	for _, a := range asserts {
-		emit(a)
-	}
-	names := d.SymNames()
 	var q strings.Builder
+	k := 0
+	for k < len(s.stack) && k < len(base) && s.stack[k].key == base[k].Key() {
+		k++
+	}
+	if n := len(s.stack) - k; n > 0 {
+		fmt.Fprintf(&q, "(pop %d)\n", n)
+		for i := len(s.stack) - 1; i >= k; i-- {
+			s.undo(&s.stack[i])
+		}
+		s.stack = s.stack[:k]
+	}
+	for i := k; i < len(base); i++ {
+		fr := sframe{key: base[i].Key()}
+		q.WriteString("(push 1)\n")
+		s.emitTerm(&q, base[i], &fr)
+		s.stack = append(s.stack, fr)
+	}
+	tmp := sframe{}
 	q.WriteString("(push 1)\n")
-	q.WriteString(d.Text())
-	q.WriteString(body.String())
+	for _, e := range extra {
+		s.emitTerm(&q, e, &tmp)
+	}
 	q.WriteString("(check-sat)\n")
 	start := time.Now()
 	st := stat(s.Name)
@@ -222,15 +306,25 @@ func (s *Solver) Check(asserts []*Term, wantModel bool, hardTimeout time.Duratio
 		atomic.AddInt64(&st.Nanos, int64(el))
 		if SlowLog != "" && el > 2*time.Second {
 			if f, err := os.OpenFile(SlowLog, os.O_APPEND|os.O_CREATE|os.O_WRONLY, 0o644); err == nil {
-				fmt.Fprintf(f, ";;;; %s %.1fs\n%s\n", s.Name, el.Seconds(), q.String())
+				fmt.Fprintf(f, ";;;; %s %.1fs\n", s.Name, el.Seconds())
+				for _, b := range base {
+					fmt.Fprintf(f, "; base %s\n", trunc(b.Key(), 400))
+				}
+				for _, b := range extra {
+					fmt.Fprintf(f, "; extra %s\n", trunc(b.Key(), 400))
+				}
 				f.Close()
 			}
 		}
 	}()
+	fail := func(why string) (Result, Model, string) {
+		s.Close()
+		s.resetState()
+		return Unknown, nil, why
+	}
 	if _, err := io.WriteString(s.in, q.String()); err != nil {
-		s.dead = true
 		atomic.AddInt64(&st.Errors, 1)
-		return Unknown, nil, "write: " + err.Error()
+		return fail("write: " + err.Error())
 	}
 	deadline := time.Now().Add(hardTimeout)
 	var res Result = Unknown
@@ -238,10 +332,8 @@ func (s *Solver) Check(asserts []*Term, wantModel bool, hardTimeout time.Duratio
 	for {
 		l, ok := s.readLine(deadline)
 		if !ok {
-			// timeout or death: restart the process next time
-			s.Close()
 			atomic.AddInt64(&st.Unknown, 1)
-			return Unknown, nil, "timeout/died"
+			return fail("timeout/died")
 		}
 		l = strings.TrimSpace(l)
 		if l == "" {
@@ -261,39 +353,42 @@ func (s *Solver) Check(asserts []*Term, wantModel bool, hardTimeout time.Duratio
 			break
 		}
 		if strings.HasPrefix(l, "(error") {
-			// inconclusive; resynchronise by restarting
-			s.Close()
 			atomic.AddInt64(&st.Errors, 1)
-			return Unknown, nil, "solver error: " + l + "\nQUERY:\n" + q.String()
+			return fail("solver error: " + l + "\nQUERY:\n" + q.String())
 		}
-		// other chatter: ignore
 	}
 	var model Model
-	if res == Sat && wantModel && len(names) > 0 {
-		var gv strings.Builder
-		gv.WriteString("(get-value (")
-		for _, n := range names {
-			gv.WriteString(smtSym(n) + " ")
+	if res == Sat && wantModel {
+		var names []string
+		for n := range s.declSyms {
+			names = append(names, n)
 		}
-		gv.WriteString("))\n")
-		io.WriteString(s.in, gv.String())
-		txt, ok := s.readSexp(deadline)
-		if !ok {
-			s.Close()
-			atomic.AddInt64(&st.Errors, 1)
-			return Unknown, nil, "model read failed"
+		sort.Strings(names)
+		if len(names) == 0 {
+			model = Model{}
+		} else {
+			var gv strings.Builder
+			gv.WriteString("(get-value (")
+			for _, n := range names {
+				gv.WriteString(smtSym(n) + " ")
+			}
+			gv.WriteString("))\n")
+			io.WriteString(s.in, gv.String())
+			txt, ok := s.readSexp(deadline)
+			if !ok {
+				atomic.AddInt64(&st.Errors, 1)
+				return fail("model read failed")
+			}
+			m, err := parseModel(txt, s.declSyms)
+			if err != nil {
+				atomic.AddInt64(&st.Errors, 1)
+				return fail("model parse: " + err.Error() + " in " + txt)
+			}
+			model = m
 		}
-		m, err := parseModel(txt, d.syms)
-		if err != nil {
-			s.Close()
-			atomic.AddInt64(&st.Errors, 1)
-			return Unknown, nil, "model parse: " + err.Error() + " in " + txt
-		}
-		model = m
-	} else if res == Sat && wantModel {
-		model = Model{}
 	}
 	io.WriteString(s.in, "(pop 1)\n")
+	s.undo(&tmp)
 	switch res {
 	case Sat:
 		atomic.AddInt64(&st.Sat, 1)
@@ -301,6 +396,11 @@ func (s *Solver) Check(asserts []*Term, wantModel bool, hardTimeout time.Duratio
 		atomic.AddInt64(&st.Unsat, 1)
 	default:
 		atomic.AddInt64(&st.Unknown, 1)
+		if s.Name != "cvc5" {
+			// after a timeout z3 may still be busy: restart to resynchronise
+			s.Close()
+			s.resetState()
+		}
 	}
 	return res, model, reason
 }
@@ -536,10 +636,10 @@ func (p *Portfolio) Close() {
 	}
 }
 
-func (p *Portfolio) Check(asserts []*Term, wantModel bool) (Result, Model, string) {
+func (p *Portfolio) Check(base []*Term, extra []*Term, wantModel bool) (Result, Model, string) {
 	// trivial cases
 	var live []*Term
-	for _, a := range asserts {
+	for _, a := range extra {
 		if a.IsFalse() {
 			return Unsat, nil, ""
 		}
@@ -547,12 +647,17 @@ func (p *Portfolio) Check(asserts []*Term, wantModel bool) (Result, Model, strin
 			live = append(live, a)
 		}
 	}
-	if len(live) == 0 {
+	for _, a := range base {
+		if a.IsFalse() {
+			return Unsat, nil, ""
+		}
+	}
+	if len(live) == 0 && len(base) == 0 {
 		return Sat, Model{}, ""
 	}
 	reason := ""
 	for _, s := range p.Solvers {
-		r, m, why := s.Check(live, wantModel, p.Hard)
+		r, m, why := s.Check(base, live, wantModel, p.Hard)
 		if r != Unknown {
 			return r, m, ""
 		}
@@ -566,7 +671,7 @@ func (p *Portfolio) CheckAll(asserts []*Term) (Result, string) {
 	var first Result = Unknown
 	have := false
 	for _, s := range p.Solvers {
-		r, _, _ := s.Check(asserts, false, p.Hard)
+		r, _, _ := s.Check(nil, asserts, false, p.Hard)
 		if r == Unknown {
 			continue
 		}
